@@ -686,7 +686,7 @@ def check_fp_merge(rep, prog, fn, kind):
     for st in fn.body.c:
         if st is main:
             break
-        if st.k != 'DeclStmt':
+        if st.k != 'DeclStmt' and not c17.is_assert_stmt(st):
             rep.undecided('R18c', st, fn, what, 'statement in front of the merge loop is not in the idiom table')
             return
     bad = []
